@@ -36,9 +36,10 @@ from rules.c04 import STATES, from_states, state_sets, state_vars, to_values, up
 META = dict(
     category='other',
     text='Closed enumeration of the statements through which a job of an uncommitted update could become runnable, counted or complete, each checked for a '
-         'committed-update restriction or for being the commit procedure itself; plus writer closed-worlds for n_jobs / state of batches and groups.',
+         'committed-update restriction or for being the commit procedure itself; plus writer closed-worlds for n_jobs / state of batches and groups; plus the initial state the bunch insert '
+         'gives to jobs of later updates (decision tree of the stored value, enumerated over update-id order classes and condition atoms).',
     note='Trusted: SQL parser, migration replay. Relies on C04 (writers of jobs.state) and C01 (counter writers).',
-    technique='static analysis: writer enumeration + guard/WHERE analysis over the effective SQL program and embedded SQL',
+    technique='static analysis: writer enumeration + guard/WHERE analysis over the effective SQL program and embedded SQL; symbolic flow of one tuple slot with helper inlining + truth table over a finite abstract domain',
     design_ref='DESIGN.md §3 C41',
 )
 
@@ -52,21 +53,59 @@ def _mentions_committed(st: N) -> bool:
     return False
 
 
+def _state_update_role(st: N, tos: Set[str]) -> str:
+    """What a statement that rewrites jobs.state is FOR, read off its structure (joined tables, join columns) - never its text: instance keys must survive a
+    re-creation of the routine with flipped comparisons, renamed aliases or CASE instead of IF."""
+    direct = [t.name.lower() for t in sf.from_tables(st.frm) if t.kind == 'table'] if getattr(st, 'frm', None) is not None else []
+    derived = [t for t in sf.from_tables(st.frm) if t.kind == 'derived'] if getattr(st, 'frm', None) is not None else []
+    if 'job_parents' in direct:
+        conj = list(sf.conjuncts(st.where)) + [c for j in getattr(st.frm, 'joins', []) for c in sf.conjuncts(j.on)]
+        by_parent = any(c.kind == 'bin' and c.op == '=' and any(x.kind == 'col' and x.parts[-1].lower() == 'parent_id' for x in (c.left, c.right)) and
+                        not all(x.kind == 'col' and len(x.parts) > 1 for x in (c.left, c.right)) for c in conj)
+        return 'children release (jobs joined to job_parents on parent_id)' if by_parent else 'jobs joined to job_parents'
+    if any('job_parents' in [t.lower() for t in sf.table_names(d.select.frm)] for d in derived if d.select.frm is not None):
+        return 'promotion by recount of pending parents'
+    return 'jobs.state -> ' + '/'.join(sorted(tos - {'<unchanged>'}))
+
+
+def _to_values(e: N, param_domain: Dict[str, Set[str]]) -> Set[str]:
+    """rules.c04.to_values, plus CASE .. WHEN .. THEN v .. [ELSE v] END (the values of its branches; no ELSE: NULL is not a state, the row keeps none - declined)."""
+    if e.kind == 'case':
+        if e.default is None:
+            raise AnalysisError(f'jobs.state is assigned a CASE without ELSE: {text(e)[:80]}')
+        out: Set[str] = set()
+        for _c, v in e.whens:
+            out |= _to_values(v, param_domain)
+        return out | _to_values(e.default, param_domain)
+    if e.kind == 'func' and e.name.upper() == 'IF' and len(e.args) == 3:
+        return _to_values(e.args[1], param_domain) | _to_values(e.args[2], param_domain)
+    return to_values(e, param_domain)
+
+
+def _sql_key(construct: str) -> str:
+    """`batch/sql/<migration>.sql::routine::...` -> `sql::routine::...` (a later migration re-defining the routine must not change the key)."""
+    import re
+    return re.sub(r'^batch/sql/[^:]+\.sql::', 'sql::', construct)
+
+
 def r1(ctx: Ctx, prog: sf.SqlProgram) -> None:
     n = 0
+    seen_roles: Dict[str, int] = {}
     for name, r in sorted(prog.routines.items()):
         for st, guard in sf.guarded_statements(r.ast.body):
             v = state_sets(st)
             if v is None:
                 continue
-            tos = to_values(v, {'new_state': {'Success', 'Failed', 'Error', 'Cancelled'}})
+            tos = _to_values(v, {'new_state': {'Success', 'Failed', 'Error', 'Cancelled'}})
             svars = state_vars(r.ast, ('in_batch_id', 'in_job_id'))
             single = sr.has_eq(st.where, 'batch_id', 'in_batch_id') and sr.has_eq(st.where, 'job_id', 'in_job_id')
             froms, constrained = from_states(st, guard, svars if single else {})
             if 'Pending' not in froms or tos <= {'Pending', '<unchanged>'}:
                 continue  # cannot take a job out of Pending
             n += 1
-            cons = f'sql::{name}::UPDATE jobs SET state = {text(v)[:50]}'
+            role = _state_update_role(st, tos)
+            seen_roles[f'{name}::{role}'] = seen_roles.get(f'{name}::{role}', 0) + 1
+            cons = f'sql::{name}::{role}' + (f' #{seen_roles[f"{name}::{role}"]}' if seen_roles[f'{name}::{role}'] > 1 else '')
             if name == 'commit_batch_update':
                 ok = ('cur_update_committed', False) in [(text(c), p) for c, p in guard]
                 ctx.check(ok, 'R1', cons, 'the commit-time promotion is not confined to the not-yet-committed branch', r.file, r.line_of(st))
@@ -105,7 +144,8 @@ def r2(ctx: Ctx, prog: sf.SqlProgram) -> None:
                 col = c.parts[-1].lower()
                 if len(c.parts) > 1 and c.parts[-2].lower() not in (tname, (tabs[0].alias or tname).lower()):
                     continue
-                cons = f'{r.file}::{name}::UPDATE {tname} SET {col} = {text(v)[:40]}'
+                lits = sorted({x.value for x in v.walk() if x.kind == 'lit' and isinstance(x.value, str)}) if col == 'state' else []
+                cons = f'sql::{name}::UPDATE {tname} SET {col}' + (f' -> {"/".join(lits)}' if lits else '')
                 if col == 'n_jobs':
                     seen += 1
                     ctx.check(name in allowed_n_jobs, 'R2', cons, f'{name} changes {tname}.n_jobs; job counts may only grow when an update is committed', r.file, r.line_of(st))
@@ -135,7 +175,7 @@ def r2(ctx: Ctx, prog: sf.SqlProgram) -> None:
     a, b = bound.get('cur_batch_n_completed'), bound.get('total_jobs_in_batch')
     ok = a is not None and b is not None and a[:2] == ('job_groups_n_jobs_in_complete_states', 'n_completed') and b[:2] == ('batches', 'n_jobs') and \
         sr.has_eq(a[2].where, 'id', 'in_batch_id') and sr.has_eq(a[2].where, 'job_group_id', '0') and sr.has_eq(b[2].where, 'id', 'in_batch_id')
-    ctx.check(ok, 'R2', f'{r.file}::mark_job_complete::batch completion test', 'the batch is marked complete by comparing something other than the root group\'s n_completed with batches.n_jobs of the same batch', r.file, r.line)
+    ctx.check(ok, 'R2', 'sql::mark_job_complete::batch completion test', 'the batch is marked complete by comparing something other than the root group\'s n_completed with batches.n_jobs of the same batch', r.file, r.line)
     # creation rows: complete, n_jobs 0
     m = pf.load('batch/batch/front_end/front_end.py')
     for e in sf.embedded_in(m):
@@ -179,7 +219,9 @@ def r3(ctx: Ctx) -> None:
                             if isinstance(c, ast.Call) and c.args and pf.const_str(c.args[0]) and 'FROM job_groups' in pf.const_str(c.args[0]):
                                 nested = True
                     n += 1
-                    ctx.check(nested, 'R3', f'{rel}::{e.qual}::jobs selection {text(st.where)[:50]}', 'jobs are selected outside a loop over running job groups', m.path, e.lineno)
+                    lits = sorted(f'{(a if a.kind == "col" else b).parts[-1].lower()}={(b if a.kind == "col" else a).value!r}' for c in sf.conjuncts(st.where) if c.kind == 'bin' and c.op == '='
+                                  for a, b in [(c.left, c.right)] if {a.kind, b.kind} == {'col', 'lit'})
+                    ctx.check(nested, 'R3', f'{rel}::{e.qual}::jobs selection [{", ".join(lits)}]', 'jobs are selected outside a loop over running job groups', m.path, e.lineno)
     ctx.need(n >= 13, f'only {n} driver selections found')
 
 
@@ -193,7 +235,7 @@ def r4(ctx: Ctx, prog: sf.SqlProgram) -> None:
     for inst in sub.instances:
         if inst['rule'] == 'R4' and 'committed only' in inst['construct']:
             k += 1
-            ctx.check(inst['holds'], 'R4', inst['construct'], str(inst['detail']))
+            ctx.check(inst['holds'], 'R4', _sql_key(inst['construct']), str(inst['detail']))
     ctx.need(k == 2, 'cancel procedures: committed-only clauses not found')
     m = pf.load('batch/batch/batch.py')
     fn = m.func('cancel_job_group_in_db.cancel')
@@ -224,7 +266,7 @@ def r5(ctx: Ctx, prog: sf.SqlProgram) -> None:
     r = prog.routine('commit_batch_update')
     hits = [(st, g) for st, g in sf.guarded_statements(r.ast.body) if st.kind == 'insert' and st.table.lower() == 'user_inst_coll_resources']
     ok = len(hits) == 1 and ('cur_update_committed', False) in [(text(c), p) for c, p in hits[0][1]]
-    ctx.check(ok, 'R5', f'{r.file}::commit_batch_update::staged counts enter at commit', 'staged ready counts are not added exactly once in the not-yet-committed branch of commit_batch_update', r.file, r.line)
+    ctx.check(ok, 'R5', 'sql::commit_batch_update::staged counts enter at commit', 'staged ready counts are not added exactly once in the not-yet-committed branch of commit_batch_update', r.file, r.line)
     # every read of the staging table inside commit_batch_update is restricted to (in_batch_id, in_update_id): staged rows of other (open) updates must not be counted
     k = 0
     for st in r.ast.walk():
@@ -242,7 +284,7 @@ def r5(ctx: Ctx, prog: sf.SqlProgram) -> None:
         for c in conj:
             w = c if w is None else N('bin', op='AND', left=w, right=c)
         okk = sr.has_eq(w, 'update_id', 'in_update_id') and sr.has_eq(w, 'batch_id', 'in_batch_id')
-        role = 'INTO ' + ', '.join(text(v) for v in st.into) if st.into else ('GROUP BY ' + ', '.join(text(g) for g in (getattr(st, 'group', None) or [])))[:60]
+        role = 'INTO ' + ', '.join(text(v) for v in st.into) if st.into else ('GROUP BY ' + ', '.join((g.parts[-1].lower() if g.kind == 'col' else text(g)) for g in (getattr(st, 'group', None) or [])))[:60]
         ctx.check(okk, 'R5', f'sql::commit_batch_update::staging read {role}', f'`{text(st)[:160]}` reads job_groups_inst_coll_staging without `batch_id = in_batch_id AND update_id = in_update_id`: '
                   'the staged jobs of other updates of the batch - created but not committed - are added to n_jobs / the scheduler counters by this commit', r.file, r.line_of(st))
     ctx.need(k >= 3, f'commit_batch_update: only {k} reads of the staging table found')
@@ -318,6 +360,12 @@ def r6(ctx: Ctx) -> None:
             not any(isinstance(n, ast.Name) and n.id == upd.id[:-2] and isinstance(n.ctx, (ast.Store, ast.Del)) for n in ast.walk(fn))
         ctx.need(ok_upd, f'{FE}::_create_jobs: the update id stored with the job (`{ci.show(upd)}`) is not a plain parameter of _create_jobs')
         verdict, a, b = (ci.decide_slot(sk.elts[si], sk.pc, upd.id, 'Pending') + (None,))[:3]
+        if verdict == 'bad':
+            # the rule is necessary because the driver reaches jobs through running job groups only (R3); a driver that looked at batch_updates.committed would not need it
+            for rel in ('batch/batch/driver/instance_collection/pool.py', 'batch/batch/driver/instance_collection/job_private.py', 'batch/batch/driver/canceller.py'):
+                for e2 in sf.embedded_in(pf.load(rel)):
+                    if e2.sql_text is not None and any(n.kind == 'col' and n.parts[-1].lower() == 'committed' for st2 in e2.stmts() for n in st2.walk()):
+                        raise AnalysisError(f'{FE}::_create_jobs: a later-update job may be inserted {b} ([{a}]) but {rel}::{e2.qual} looks at a `committed` column: whether the driver can still see the job is not decided')
         if verdict == 'unknown':
             raise AnalysisError(f'{FE}::_create_jobs: initial state `{ci.show(sk.elts[si])[:200]}` of the jobs of a later update not decided: {a}')
         ctx.check(verdict == 'ok', 'R6', cons + '::later updates start Pending',
@@ -335,6 +383,8 @@ def run(ctx: Ctx) -> None:
     ctx.rule('R4', 'cancellation moves only committed updates\' counts; a non-root group must be committed to be cancelled', 3)
     ctx.rule('R5', 'staged counts enter the scheduler counters only at commit, and only those of the update being committed', 5)
     ctx.rule('R6', 'jobs of a later update (update_id != 1) are inserted Pending on every accepted path (decision tree of the stored state enumerated over update-id classes and condition atoms)', 1)
+    from engines import c08ids as _ci
+    ctx.unit('SQL texts resolved through module-level constants', _ci.resolve_module_sql(pf.load('batch/batch/front_end/front_end.py')))
     prog = sf.load_program()
     r1(ctx, prog)
     r2(ctx, prog)
